@@ -25,7 +25,7 @@ EXPLANATION = (
     "row-set equality on real data; MultiIndex label round trip through str/eval."
 )
 LEVEL_RULE = "one obligation per backend validate / fold step / typestate use"
-FLOORS = {"R1": 5, "R2": 7, "R3": 2, "R4": 5, "R5": 1, "R6": 3, "R7": 3, "R8": 2, "R9": 1, "R10": 1}
+FLOORS = {"R1": 5, "R2": 7, "R3": 2, "R4": 5, "R5": 1, "R6": 3, "R7": 3, "R8": 2, "R9": 1, "R10": 1, "R11": 1}
 
 
 def _validates(ix):
@@ -430,6 +430,33 @@ def r10_rows_from_complete_output(ctx):
            "Column(int, Check.gt(0, n_failure_cases=1)) on [1,-2,-3,4,-5] returns [1,-3,4,-5]", f.loc(reads_report[0]) if reads_report else None)
 
 
+def r11_no_error_skipped(ctx):
+    """drop_invalid_rows may return an object only if every collected error was turned into dropped rows.  A `continue`
+    (or a conditional that bypasses the drop) for errors whose failure cases are not row-shaped forgets violations that
+    dropping rows cannot repair - a wrong dtype, a missing column, a failing aggregate check - and returns the
+    non-conforming object without raising."""
+    ix = ctx.ix
+    f = ix.func("pandera/backends/pandas/base.py::PandasSchemaBackend.drop_invalid_rows")
+    ctx.touched(f)
+    loops = [lp for lp in walk_no_nested(f.node) if isinstance(lp, ast.For)]
+    if not loops:
+        raise AnalysisError("pandas drop_invalid_rows: no loop over the collected errors")
+    skips = []
+    for lp in loops:
+        for x in ast.walk(lp):
+            if isinstance(x, ast.Continue):
+                skips.append(x)
+        # the statement that narrows check_obj sits under a condition without a raising alternative
+        for st in ast.walk(lp):
+            if isinstance(st, ast.If) and not st.orelse and any(isinstance(y, ast.Call) and callee_last(y) == "isin" for b in st.body for y in ast.walk(b)) \
+                    and not any(isinstance(y, ast.Raise) for y in ast.walk(st)):
+                skips.append(st)
+    ctx.ob("R11", f, "pandas drop_invalid_rows turns every collected error into dropped rows (or raises)", not skips,
+           "no error is skipped" if not skips else
+           f"line {skips[0].lineno}: some collected errors are skipped: a violation that has no row-shaped failure cases (dtype, missing column, aggregate check) "
+           "is forgotten and the non-conforming object is returned", f.loc(skips[0]) if skips else None)
+
+
 def run(ctx):
     r1_precondition(ctx)
     r2_shape(ctx)
@@ -441,4 +468,5 @@ def run(ctx):
     r8_component_errors_reach_the_container(ctx)
     r9_labels_not_rebuilt_by_eval(ctx)
     r10_rows_from_complete_output(ctx)
+    r11_no_error_skipped(ctx)
     ctx.assume("Index.isin / DataFrame.loc / LazyFrame.filter have their documented meaning")
